@@ -202,7 +202,29 @@ CHECKS = {
 
 PENDING = 'monitor planned in DESIGN.md section 3 but not built yet in this round; no claim is made'
 
+# workloads added in later rounds (appended to the level text of the check)
+ADDED = {
+ 'C01': ' Also: each of the 21 ES5 white-space characters as the indentation string in front of every kind of line-starting token.',
+ 'C03': ' Also exhaustive: numeric spellings of length<=4 (thorough 5) over 0 1 7 8 9 . e x a - +; a backslash before every ASCII '
+        'character and 12 others in both kinds of string literal; identifier escapes of 36 kinds at every position of a name in 12 contexts.',
+ 'C06': ' Every token is also re-read by the reference scanner at its offset (same class, same extent); every ordered triple of '
+        'punctuators without separation and 21 pieces of foreign syntax at line starts are lexed exhaustively in both tiers.',
+ 'C07': ' One case in four with a second output of the same printer object alive and consumed in turns.',
+ 'C08': ' One case in four with the tree of Parser(yacc_tracking=False).',
+ 'C09': ' Maps written with write_sourcemap are decoded again; layouts include several spellings of one source location.',
+ 'C10': ' Integers whose encoding has up to 20000 digits; a codec exception counts as a violation.',
+ 'C12': ' Foreign syntax (hashbang, HTML comment delimiters ...) and the shared identifier- and string-escape families as inputs.',
+ 'C14': ' The shortcuts are also compared with the explicit calls over generated texts at large (line terminators of every kind inside tokens).',
+ 'C15': ' Other public entry points (quick-access object, print shortcuts, the read helper) run as company under threads; callers fill every container of a returned tree.',
+ 'C18': ' Arrangements include factories that return themselves.',
+ 'C19': ' Options: fold_ops x ignore_errors; empty and falsy values at every position.',
+ 'C20': ' Also trees with a member of unknown kind printed through a Dispatcher whose error_handler carries on.',
+}
+
+
 def main():
+    for k, v in ADDED.items():
+        CHECKS[k]['text'] += v
     props = [json.loads(l) for l in open('/verif/properties.jsonl')]
     checks, na = [], []
     for p in props:
